@@ -148,7 +148,9 @@ class Check:
                 unlisted.append(v)
         stale = [e for k, e in known.items() if k[0] == self.pid and e.get('status') == 'known' and k not in seen]
         wall = time.time() - self.t0
-        self._write_evidence(viol, listed, unlisted, stale, errors, wall)
+        variant_run = bool(os.environ.get('VERIF_VARIANT'))      # self-test run on a scratch variant: no evidence, no replay
+        if not variant_run:
+            self._write_evidence(viol, listed, unlisted, stale, errors, wall)
         for v, ent in listed:
             print('KNOWN-FINDING: property=%s %s' % (self.pid, ent.get('what') or v.msg))
         for e in stale:
@@ -170,10 +172,11 @@ class Check:
             os.makedirs(os.path.join(VERIF, 'out', 'replay'), exist_ok=True)
             for n, v in enumerate(unlisted):
                 path = os.path.join(VERIF, 'out', 'replay', '%s-%s.json' % (self.pid, v.key))
-                with open(path, 'w') as f:
-                    json.dump({'property': self.pid, 'instance': v.as_dict(),
-                               'rule_description': self.rules[v.rule]['desc'],
-                               'rerun': './check %s --replay %s' % (self.pid, path)}, f, indent=1)
+                if not variant_run:
+                    with open(path, 'w') as f:
+                        json.dump({'property': self.pid, 'instance': v.as_dict(),
+                                   'rule_description': self.rules[v.rule]['desc'],
+                                   'rerun': './check %s --replay %s' % (self.pid, path)}, f, indent=1)
                 print('VIOLATION property=%s replay=%s' % (self.pid, path))
                 print('  %s %s:%s %s :: %s' % (v.rule, v.file, v.line or '?', v.construct, v.msg))
                 if v.detail:
